@@ -117,6 +117,8 @@ def run(ctx):
 
     # ---- R06.1 twiddle tables and moment order
     th = P("theta")
+    from .. import arrayeval as _ae
+    _ae.HINTS[th] = 1           # the direction grid is a vector
     table = [sp.cos(th), sp.sin(th), sp.cos(2 * th), sp.sin(2 * th)]
     # what the two drivers hand to their per-frequency solvers, captured at the call (wherever the tables are built: inline
     # or in a helper): the twiddle table, the moment vector and the direction increments
@@ -144,6 +146,11 @@ def run(ctx):
     def twiddle_rows(t):
         rows = {}
         cur = T.to_term(t)
+        if fname(cur) in ("array", "stack", "vstack") and (len(cur.args) == 4 or (cur.args and isinstance(cur.args[0], sp.Tuple)
+                                                                                   and len(cur.args[0].args) == 4)):
+            # the table written as one literal: np.array([row0, row1, row2, row3])
+            lit = cur.args if len(cur.args) == 4 else cur.args[0].args
+            return {j: lit[j] for j in range(4)}
         while fname(cur) == "store":
             i = cur.args[1]
             if isinstance(i, sp.Tuple) and len(i.args) == 2 and i.args[0].is_Integer:
@@ -446,10 +453,12 @@ def run(ctx):
                 continue
             if isinstance(st, ast.Assign) and len(st.targets) == 1 and isinstance(st.targets[0], ast.Name):
                 nm = st.targets[0].id
-                sums = [c for c in ast.walk(st.value) if isinstance(c, ast.Call) and ast.unparse(c.func) in ("np.sum", "numpy.sum") and c.args]
+                sums = [c.args[0] for c in ast.walk(st.value) if isinstance(c, ast.Call) and ast.unparse(c.func) in ("np.sum", "numpy.sum") and c.args]
+                sums += [c.func.value for c in ast.walk(st.value) if isinstance(c, ast.Call) and isinstance(c.func, ast.Attribute)
+                         and c.func.attr == "sum" and not (isinstance(c.func.value, ast.Name) and c.func.value.id in ("np", "numpy"))]
                 if sums:
                     # the normaliser: its summand is the un-normalised distribution, whatever the locals are called
-                    d_unnorm = T.to_term(itm.eval(sums[0].args[0], env))
+                    d_unnorm = T.to_term(itm.eval(sums[0], env))
                     break
                 env.vars[nm] = itm.eval(st.value, env)
                 la_[nm] = T.to_term(env.vars[nm])
@@ -458,6 +467,8 @@ def run(ctx):
             def fn(n):
                 if fname(n) == "item" and isinstance(n.args[1], sp.Tuple) and NONE_T in n.args[1].args:
                     return n.args[0]
+                if fname(n) in ("outer", "ext_numpy_outer") and len(n.args) == 2:
+                    return n.args[0] * n.args[1]        # element (f, d) of np.outer(x, y) is x[f] * y[d]
                 return None
             return T.rewrite(t, fn)
 
